@@ -1,6 +1,7 @@
 """CrossHair harness for C13: the Variable factory's tier algorithm and type sharing through scopes."""
 from loki.expression import symbols as sym
 from loki.types import BasicType, SymbolAttributes, DerivedType, ProcedureType, Scope
+from loki import ir
 
 NAMES = ['v', 'V', 'vAr']
 
@@ -119,10 +120,69 @@ def clone_and_rescope(t: int, t2: int, nm: int) -> bool:
         and v.scope is s1 and s1.symbol_attrs.lookup(NAMES[nm]).dtype == mk_type(t, False).dtype
 
 
-FUNCS = ['classify_explicit_type', 'classify_from_scope', 'classify_dimensions_none', 'type_update_shared', 'clone_and_rescope']
+def mk_typedef():
+    td = ir.TypeDef(name='tt', body=())
+    b = sym.Variable(name='b', type=SymbolAttributes(BasicType.REAL, shape=(sym.IntLiteral(5),)),
+                     dimensions=(sym.IntLiteral(5),), scope=td)
+    c = sym.Variable(name='c', type=SymbolAttributes(BasicType.INTEGER), scope=td)
+    p = sym.Variable(name='p', type=SymbolAttributes(ProcedureType('p', is_function=False)), scope=td)
+    td._update(body=(ir.VariableDeclaration(symbols=(b,)), ir.VariableDeclaration(symbols=(c,)),
+                     ir.ProcedureDeclaration(symbols=(p,))))
+    return td
+
+
+MEMBERS = ['r%b', 'R%B', 'r%c', 'r%C', 'r%nope']
+
+
+def classify_derived_member(stale: int, withparent: bool, inparent: bool, which: int, dims: bool) -> bool:
+    """
+    pre: 0 <= stale < 3 and 0 <= which < 5
+    post: _
+    """
+    td = mk_typedef()
+    outer = Scope()
+    scope = Scope(parent=outer)
+    home = outer if inparent else scope
+    if stale == 1:
+        # placeholder recorded before the type definition was known
+        home.symbol_attrs['r%b'] = SymbolAttributes(BasicType.DEFERRED)
+        home.symbol_attrs['r%c'] = SymbolAttributes(BasicType.DEFERRED)
+    home.symbol_attrs['r'] = SymbolAttributes(DerivedType(name='tt', typedef=td))
+    if stale == 2:
+        # member entry reset to deferred after the parent's type is known
+        home.symbol_attrs['r%c'] = SymbolAttributes(BasicType.DEFERRED)
+        home.symbol_attrs['r%b'] = SymbolAttributes(BasicType.DEFERRED)
+    kw = {'name': MEMBERS[which], 'scope': scope}
+    if withparent:
+        kw['parent'] = sym.Variable(name='r', scope=scope)
+    if dims:
+        kw['dimensions'] = (sym.IntLiteral(2),)
+    v = sym.Variable(**kw)
+    if which < 2:
+        want = sym.Array
+    elif which < 4:
+        want = sym.Array if dims else sym.Scalar
+    else:
+        want = sym.Array if dims else sym.DeferredTypeSymbol
+    if type(v) is not want:
+        return False
+    # the class agrees with the type the symbol itself reports
+    t = v.type
+    if which < 2:
+        return t.dtype == BasicType.REAL and bool(t.shape)
+    if which < 4:
+        return t.dtype == BasicType.INTEGER
+    return True
+
+
+FUNCS = ['classify_derived_member', 'classify_explicit_type', 'classify_from_scope', 'classify_dimensions_none', 'type_update_shared', 'clone_and_rescope']
 
 
 def generate(tier):
     from pathlib import Path
     text = Path(__file__).read_text().split('\ndef generate(tier):')[0]
+    if tier == 'quick':
+        text = text.replace('pre: 0 <= stale < 3 and 0 <= which < 5', 'pre: 0 <= stale < 3 and 0 <= which < 5 and not inparent and which != 1')
+        text = text.replace('pre: 0 <= t < 7 and 0 <= nm < 3 and 0 <= nm2 < 3 and NAMES[nm].lower() == NAMES[nm2].lower()',
+                            'pre: 0 <= t < 7 and 0 <= nm < 2 and 0 <= nm2 < 2')
     return text, FUNCS
